@@ -1348,7 +1348,7 @@ func ruleNewMapEarly(p *Prog, r *Report) {
 		r.OK(rule, n, c, p.Pos(ret.Pos()), fmt.Sprintf("%d controlling branches outside loops; none depends on the receiver", nb))
 	}
 	_ = nRet
-	r.Floor(rule, 2)
+	r.Floor(rule, 1)
 }
 
 // ruleEOFTest (ERR.eoftest, C19/C13): "the reader reported the end of the input" is recognised by the identity of io.EOF. A test
@@ -1456,8 +1456,20 @@ func ruleEmptyPathSelf(p *Prog, r *Report) {
 			}
 			fromSplit := false
 			for v := range backwardSlice(fn, a) {
-				if sc, ok := v.(*ssa.Call); ok && isCallTo(&sc.Call, "strings.Split") {
+				sc, ok := v.(*ssa.Call)
+				if !ok {
+					continue
+				}
+				if isCallTo(&sc.Call, "strings.Split") {
 					fromSplit = true
+				}
+				// "split the path" as a helper of its own
+				if hh := staticCallee(&sc.Call); hh != nil && p.InModule(hh) && !p.Exported(hh) && len(hh.Blocks) > 0 {
+					eachInstr(hh, func(b *ssa.BasicBlock, in ssa.Instruction) {
+						if hc, ok := in.(*ssa.Call); ok && isCallTo(&hc.Call, "strings.Split") {
+							fromSplit = true
+						}
+					})
 				}
 			}
 			if !fromSplit {
